@@ -5,6 +5,7 @@ import (
 	"fmt"
 	"math"
 	"math/bits"
+	"net/url"
 	"os"
 	"sort"
 	"strconv"
@@ -125,16 +126,55 @@ func (d *c19Dir) stateFile(n uint64) srv.StateFile {
 		}
 		sf.TxnMax = base + int64(n%5000)*13
 		sf.TxnMaxQueried = sf.TxnMax - int64(n%3)
-		switch c19Mix(d.tsid+5, n) % 4 {
-		case 0: // empty list
-		case 1:
-			sf.TxnActive = []int64{sf.TxnMax - 227}
-		case 2:
-			sf.TxnActive = []int64{sf.TxnMax - 9000, sf.TxnMax - 227, sf.TxnMax - 3}
-			sf.TxnReady = []int64{sf.TxnMax - 1}
-		default:
-			for j := int64(40); j > 0; j-- {
-				sf.TxnActive = append(sf.TxnActive, sf.TxnMax-j*17)
+		// size and key order of the file: the only unbounded line is txnActiveList (the
+		// transactions open when the file was written); with ~90 ids the file passes 1 KiB.
+		h := c19Mix(d.tsid+5, n)
+		active, ready := 0, 0
+		if d.tsid == 0 { // enumerated directories: a function of n alone
+			sf.Order = []int{1, 0, 2}[n%3]
+			active = []int{0, 1, 40, 120}[n%4]
+			if n == 5 {
+				active, ready = 700, 3
+			}
+		} else {
+			sf.Order = int(h >> 16 % 7) // 0..2 fixed orders, 3..6 permutations
+			switch c := h % 32; {
+			case c < 8:
+			case c < 16:
+				active = 1
+			case c < 22:
+				active, ready = 3, 1
+			case c < 27:
+				active = 40
+			case c < 30:
+				active, ready = 120, 2
+			case c < 31:
+				active, ready = 700, 40
+			default:
+				active = 300
+				if h>>8%8 == 0 {
+					active = 5800 // about 64 KiB
+				}
+			}
+			switch h >> 24 % 8 {
+			case 0:
+				sf.Extra = []string{"#written by osmosis", "osmosisVersion=0.48.3"}
+			case 1:
+				sf.Extra = []string{"", "replicationLag=0"}
+			}
+		}
+		for j := int64(active); j > 0; j-- {
+			sf.TxnActive = append(sf.TxnActive, sf.TxnMax-j*17-1)
+		}
+		for j := int64(ready); j > 0; j-- {
+			sf.TxnReady = append(sf.TxnReady, sf.TxnMax-j*17)
+		}
+	case srv.Hour, srv.Day:
+		if d.tsid != 0 {
+			h := c19Mix(d.tsid+5, n)
+			sf.Order = int(h >> 16 % 4)
+			if h>>24%8 == 0 {
+				sf.Extra = []string{"#merged", "unknownKey=1"}
 			}
 		}
 	case srv.Changesets:
@@ -553,6 +593,12 @@ func c19ExecEnum(res *fw.Result, p *srv.Planet, stream string, n, lo, hi int) {
 	res.Sample = map[string]any{"stream": stream, "range": fmt.Sprintf("1..%d", n), "subset_masks": fmt.Sprintf("[%d,%d)", lo, hi), "one_lookup": first}
 }
 
+// c19Prefixes are base-URL path prefixes of mirrors: plain ones and hostile-but-valid ones
+// with percent escapes (a space, a literal percent sign, an unnecessarily escaped letter, a
+// proxied URL, UTF-8). Whatever the caller supplies as BaseURL has to arrive unharmed.
+var c19Prefixes = []string{"/mirror", "/pub/osm/planet", "/a/b/c", "/pub/OpenStreetMap%20mirror", "/100%25/osm", "/m%41p",
+	"/fetch/https%3A%2F%2Fplanet.osm.org", "/a%20b/c%2Bd/%E2%9C%93", "/~user/osm-mirror_v1.0/planet.osm.org", "/%64%73/x"}
+
 // c19GapRuns knocks runs of state files out next to the probe sequence of a binary search
 // between lo and hi that homes in on target, and next to the bounds and the target.
 func c19GapRuns(r *gen.R, missing map[uint64]bool, lo, hi, target uint64) {
@@ -644,8 +690,8 @@ func c19ExecRand(res *fw.Result, p *srv.Planet, stream string, seed uint64) {
 		if r.Chance(0.3) {
 			d.step = c19RegularStep(stream)
 		}
-		if r.Chance(0.2) {
-			d.prefix = r.PickS("/mirror", "/pub/osm/planet", "/a/b/c")
+		if r.Chance(0.3) {
+			d.prefix = r.PickS(c19Prefixes...)
 		}
 		missing := map[uint64]bool{}
 		density := []float64{0, 0, 0.02, 0.1, 0.3, 0.6, 0.9}[r.Intn(7)]
@@ -912,8 +958,9 @@ var c19TxnMagnitudes = []int64{1, 836_439_235, 1<<31 - 1, 1 << 31, 1<<31 + 1, 3_
 func c19ExecFormat(res *fw.Result, p *srv.Planet, stream string, seed uint64) {
 	r := gen.New(seed, "c19fmt")
 	ds := c19Datasource(p)
+	pf := ""
 	load := func(sd *srv.Dir, budget int) {
-		p.Load(sd, budget, "")
+		p.Load(sd, budget, pf)
 		ds.BaseURL = p.BaseURL()
 	}
 	seqs := []uint64{1, 2, 9, 10, 99, 100, 999, 1000, 1001, 9999, 99_999, 999_999, 1_000_000, 1_000_001, 1_999_999, 2_000_000, 2_007_990, 2_008_004, 6_123_456, 10_000_000, 123_456_789, 999_999_999}
@@ -928,6 +975,10 @@ func c19ExecFormat(res *fw.Result, p *srv.Planet, stream string, seed uint64) {
 	for i, n := range seqs {
 		var tm time.Time
 		curOnly := n >= 1_000_000_000
+		pf = ""
+		if i%3 == 1 { // a mirror below a (possibly percent-escaped) path
+			pf = c19Prefixes[(i/3+shift)%len(c19Prefixes)]
+		}
 		if i < len(c19EdgeTimes) || curOnly {
 			tm = c19EdgeTimes[(i+int(seed%7))%len(c19EdgeTimes)]
 		} else {
@@ -968,7 +1019,7 @@ func c19ExecFormat(res *fw.Result, p *srv.Planet, stream string, seed uint64) {
 					txnKey = fmt.Sprintf("/txn=%d,%d,active=%d", sf.TxnMax, sf.TxnMaxQueried, len(sf.TxnActive))
 				}
 				sd := &srv.Dir{Stream: stream, States: map[uint64]srv.StateFile{n: sf}, Current: n}
-				key := fmt.Sprintf("C19/state/stream=%s/fmt=%s/n=%d/time=%s%s", stream, f, n, tm.Format(time.RFC3339Nano), txnKey)
+				key := fmt.Sprintf("C19/state/stream=%s/fmt=%s/n=%d/time=%s%s/prefix=%s", stream, f, n, tm.Format(time.RFC3339Nano), txnKey, pf)
 				check := func(what string, gotN uint64, st *replication.State, err error, wantPath string) {
 					count, log, unexpected, _ := p.Observed()
 					detail := map[string]any{"file": string(srv.RenderState(stream, n, sf, what == "current")), "log": log}
@@ -1000,11 +1051,11 @@ func c19ExecFormat(res *fw.Result, p *srv.Planet, stream string, seed uint64) {
 					if st != nil {
 						gotN = st.SeqNum
 					}
-					check("file", gotN, st, err, "/replication/"+stream+"/"+srv.SeqPath(n)+".state.txt")
+					check("file", gotN, st, err, c19Unescape(pf)+"/replication/"+stream+"/"+srv.SeqPath(n)+".state.txt")
 				}
 				load(sd, 4)
 				cn, cst, cerr := c19CurrentState(ds, stream)
-				check("current", cn, cst, cerr, "/replication/"+stream+"/"+curName)
+				check("current", cn, cst, cerr, c19Unescape(pf)+"/replication/"+stream+"/"+curName)
 				res.Eval(fmt.Sprintf("state/%s/%s/same=%v/seqbits%d/txnbits%d/active%d/y%d/ns%s", stream, f, same, bits.Len64(n), bits.Len64(uint64(sf.TxnMax)), len(sf.TxnActive), tm.Year()/100, c19NanoClass(tm)))
 			}
 		}
@@ -1025,8 +1076,89 @@ func c19ExecFormat(res *fw.Result, p *srv.Planet, stream string, seed uint64) {
 		}
 		res.Eval("state/" + stream + "/missing+500")
 	}
+	pf = ""
+	if stream != srv.Changesets {
+		checked += c19FormatLayouts(res, p, ds, stream, r, seed)
+	}
 	res.Add("state_files_decoded", int64(checked))
 	res.Sample = map[string]any{"stream": stream, "sequence_numbers": seqs[:8], "example_file": string(srv.RenderState(stream, 2010580, srv.StateFile{Time: c19EdgeTimes[1], Txn: true, TxnMax: 6123456789, TxnMaxQueried: 6123456789, TxnActive: []int64{6123456001, 6123456700}}, false))}
+}
+
+func c19Unescape(prefix string) string {
+	if dec, err := url.PathUnescape(prefix); err == nil {
+		return dec
+	}
+	return prefix
+}
+
+// c19FormatLayouts serves properties state files of realistic size and shape: txnActiveList /
+// txnReadyList of up to thousands of ids (bodies of 1 to 64 KiB), every key order incl. the
+// planet's (timestamp after the long line), unknown keys, comment and blank lines, CRLF. Every
+// field the public State exposes must still equal the file.
+func c19FormatLayouts(res *fw.Result, p *srv.Planet, ds *replication.Datasource, stream string, r *gen.R, seed uint64) int {
+	sizes := [][2]int{{0, 0}, {1, 0}, {89, 0}, {95, 3}, {120, 0}, {700, 40}, {3000, 500}, {5800, 0}}
+	if stream != srv.Minute {
+		sizes = [][2]int{{0, 0}} // hour and day files have no transaction lines
+	}
+	orders := []int{0, 1, 2, 3 + int(seed%97)}
+	checked := 0
+	for si, sz := range sizes {
+		for _, order := range orders {
+			for vi := 0; vi < 2; vi++ {
+				n := uint64(r.Int64Range(1, 999_999_999))
+				tm := time.Unix(r.Int64Range(1_100_000_000, 1_900_000_000), 0).UTC()
+				sf := srv.StateFile{Time: tm, Order: order, CRLF: vi == 1}
+				if (si+order+vi)%2 == 1 {
+					sf.Extra = []string{"#a comment with = and \\: in it", "unknownKey=some value", "", "txnMaxx=12"}
+				}
+				if stream == srv.Minute {
+					sf.Txn = true
+					sf.TxnMax = c19TxnMagnitudes[(si+order+int(seed%11))%len(c19TxnMagnitudes)]
+					if sf.TxnMax < 1_000_000 {
+						sf.TxnMax = 6_123_456_789
+					}
+					sf.TxnMaxQueried = sf.TxnMax - int64(vi)
+					for j := int64(sz[0]); j > 0; j-- {
+						sf.TxnActive = append(sf.TxnActive, sf.TxnMax-j*3)
+					}
+					for j := int64(sz[1]); j > 0; j-- {
+						sf.TxnReady = append(sf.TxnReady, sf.TxnMax-j*3-1)
+					}
+				}
+				body := srv.RenderState(stream, n, sf, false)
+				key := fmt.Sprintf("C19/state/stream=%s/layout=order%d,active%d,ready%d,crlf=%v,extra%d/n=%d", stream, order, sz[0], sz[1], sf.CRLF, len(sf.Extra), n)
+				sd := &srv.Dir{Stream: stream, States: map[uint64]srv.StateFile{n: sf}, Current: n}
+				for _, what := range []string{"file", "current"} {
+					p.Load(sd, 4, "")
+					ds.BaseURL = p.BaseURL()
+					var st *replication.State
+					var err error
+					if what == "file" {
+						st, err = c19State(ds, stream, n)
+					} else {
+						_, st, err = c19CurrentState(ds, stream)
+					}
+					count, log, _, _ := p.Observed()
+					detail := map[string]any{"file_bytes": len(body), "file_head": string(body[:min(len(body), 300)]), "log": log}
+					switch {
+					case err != nil:
+						c19Violate(res, key+"/"+what+"/error", fmt.Sprintf("valid %d byte state file rejected: %v", len(body), err), detail)
+					case st == nil || st.SeqNum != n:
+						c19Violate(res, key+"/"+what+"/seq", fmt.Sprintf("state %+v, file says sequence %d", st, n), detail)
+					case !st.Timestamp.Equal(tm):
+						c19Violate(res, key+"/"+what+"/time", fmt.Sprintf("%d byte file: decoded %s, file says %s", len(body), st.Timestamp.UTC().Format(time.RFC3339Nano), tm.Format(time.RFC3339Nano)), detail)
+					case sf.Txn && (int64(st.TxnMax) != sf.TxnMax || int64(st.TxnMaxQueried) != sf.TxnMaxQueried):
+						c19Violate(res, key+"/"+what+"/txn", fmt.Sprintf("%d byte file: txnMax/txnMaxQueried %d/%d, file says %d/%d", len(body), st.TxnMax, st.TxnMaxQueried, sf.TxnMax, sf.TxnMaxQueried), detail)
+					}
+					res.Event(int64(count))
+					checked++
+				}
+				res.SetMax("state_file_bytes", int64(len(body)))
+				res.Eval(fmt.Sprintf("layout/%s/order%d/kib%d/crlf=%v/extra=%v", stream, min(order, 3), c19Log2Ceil(uint64(len(body)/1024+1)), sf.CRLF, len(sf.Extra) > 0))
+			}
+		}
+	}
+	return checked
 }
 
 func c19NanoClass(t time.Time) string {
@@ -1054,8 +1186,8 @@ func c19ExecData(res *fw.Result, p *srv.Planet, stream string, seed uint64) {
 	}
 	for _, n := range seqs {
 		prefix := ""
-		if r.Chance(0.25) {
-			prefix = "/mirror/planet"
+		if r.Chance(0.4) {
+			prefix = r.PickS(c19Prefixes...)
 		}
 		id := int64(n)*3 + 1
 		sd := &srv.Dir{Stream: stream, States: map[uint64]srv.StateFile{}, Current: n, Data: map[uint64][]byte{}}
@@ -1109,7 +1241,7 @@ func c19ExecData(res *fw.Result, p *srv.Planet, stream string, seed uint64) {
 			}
 		}
 		count, log, unexpected, _ := p.Observed()
-		wantPath := prefix + "/replication/" + stream + "/" + srv.SeqPath(n) + ext
+		wantPath := c19Unescape(prefix) + "/replication/" + stream + "/" + srv.SeqPath(n) + ext
 		key := fmt.Sprintf("C19/data/stream=%s/n=%d/prefix=%s", stream, n, prefix)
 		switch {
 		case len(unexpected) > 0:
@@ -1151,7 +1283,7 @@ func init() {
 			"(current always present) x every query position (before first, at each, between each, after last) — independent of the seed. " +
 			"rand: ranges up to 400 with random density and gap runs next to the probe sequence of a binary search; offset: windows at high " +
 			"offsets crossing directory levels with everything below missing; format: single state files in each documented layout; data: " +
-			"sequence-numbered data files; skew: gap-free and sparse-gap ranges of 1 000 to 100 000 states with skewed timestamp assignments (pauses, exponential spacing, clusters, bursts). Signature = kind/stream/log2(range)/missing-count class/query position class/first-state present or " +
+			"sequence-numbered data files; skew: gap-free and sparse-gap ranges of 1 000 to 100 000 states with skewed timestamp assignments (pauses, exponential spacing, clusters, bursts). Minute state files have realistic sizes (txnActiveList up to thousands of ids, 1-64 KiB), key orders, unknown keys, comments, CRLF (format); base URLs with percent-escaped path prefixes. Signature = kind/stream/log2(range)/missing-count class/query position class/first-state present or " +
 			"missing (prefix-only or scattered gaps); a signature is non-trivial when a lookup was actually executed against the fake server.",
 		Assumptions: []string{
 			"The fake server models the planet layout from its documentation: /replication/<stream>/state.txt (state.yaml for changesets), NNN/NNN/NNN.state.txt, .osc.gz / .osm.gz; timestamps strictly increase with the sequence number; the current state is the newest present file.",
